@@ -19,25 +19,25 @@ op = new OrientedPoint at (6,6,0), facing 0.5
 ob = new Object at (20,20,0), facing 0.7
 
 class Base:
-    foo: 1
-    bar: self.foo + 1
+    foo: rt.note('Base.foo', 1)
+    bar: rt.note('Base.bar', self.foo + 1)
     tags[additive]: 'base'
     dyn[dynamic]: 0
 
 class Derived(Base):
-    foo: self.width * 2
-    baz: self.bar + self.foo
+    foo: rt.note('Derived.foo', self.width * 2)
+    baz: rt.note('Derived.baz', self.bar + self.foo)
     tags[additive]: 'derived'
-    fin[final]: self.foo + 1
+    fin[final]: rt.note('Derived.fin', self.foo + 1)
 
 class Deeper(Derived):
-    bar: 5
-    qux: self.position.x + self.baz
+    bar: rt.note('Deeper.bar', 5)
+    qux: rt.note('Deeper.qux', self.position.x + self.baz)
     width: 3
 
 class Pinned:
     position[final]: (1, 1, 0)
-    quux: self.yaw
+    quux: rt.note('Pinned.quux', self.yaw)
 
 class Broken:
     zap: self.nothing + 1
@@ -76,15 +76,15 @@ def _mk():
     def add(id, syntax, sec, oriented=False, given=None, core=False):
         I.append(dict(id=id, syntax=syntax, sec=sec, oriented=oriented, given=given, core=core))
 
-    add("with_foo", "with foo 7", SEC_WITH, given="foo", core=True)
+    add("with_foo", "with foo rt.lazy('with_foo', 7)", SEC_WITH, given="foo", core=True)
     add("with_yaw", "with yaw 0.1", SEC_WITH, given="yaw", core=True)
     add("with_pori", "with parentOrientation 0.2", SEC_WITH, given="parentOrientation", core=True)
     add("with_pos", "with position (9,9,0)", SEC_WITH, given="position", core=True)
-    add("with_width", "with width 3", SEC_WITH, given="width")
+    add("with_width", "with width rt.lazy('with_width', 3)", SEC_WITH, given="width")
     add("with_rci", "with regionContainedIn regN", SEC_WITH, given="regionContainedIn", core=True)
-    add("with_bar", "with bar 2", SEC_WITH, given="bar")
+    add("with_bar", "with bar rt.lazy('with_bar', 2)", SEC_WITH, given="bar")
     add("with_fin", "with fin 3", SEC_WITH, given="fin")
-    add("with_baz", "with baz 4", SEC_WITH, given="baz")
+    add("with_baz", "with baz rt.lazy('with_baz', 4)", SEC_WITH, given="baz")
     add("with_pitch", "with pitch 0.1", SEC_WITH, given="pitch")
     # heading is derived (final) in 3D mode; in 2D mode OrientedPoint._prepareSpecifiers rewrites it to `facing 0.3`
     add("with_heading", "with heading 0.3", SEC_WITH, given="heading", core=True)
@@ -138,6 +138,10 @@ def _mk():
 
 
 INSTANCES = _mk()
+# observation through public syntax only: these instances pass a logging DelayedArgument (rt.lazy) as their value, and the
+# user classes' default expressions call rt.note(<class>.<property>, value) -- both log when the specifier is *evaluated*
+PUBLIC_INSTS = ["with_foo", "with_width", "with_bar", "with_baz"]
+PUBLIC_DEFAULTS = {"Base": ["foo", "bar"], "Derived": ["foo", "baz", "fin"], "Deeper": ["bar", "qux"], "Pinned": ["quux"]}
 CLASSES = ["Object", "Base", "Derived", "Deeper", "Pinned", "Broken"]
 ALL_SECTIONS = sorted({i["sec"] for i in INSTANCES})
 
